@@ -12,6 +12,7 @@ import TwModel
 import TwSpec
 import TwProofs.Lemmas.EvalStep
 import TwProofs.Lemmas.TextEach
+import TwProofs.Lemmas.ScopeEval
 
 namespace Tw.C04
 open Tw
@@ -303,6 +304,88 @@ example : evaluateStringPure [] (b "@each(v in xs){{v}}@end{{v}}") [(b "v", .str
   have hs : b "@each(" ++ b "v" ++ b " in " ++ b "xs" ++ b "){{" ++ b "v" ++ b "}}@end{{" ++ b "v" ++ b "}}" = b "@each(v in xs){{v}}@end{{v}}" := by decide
   have ho : [Val.str (b "a"), Val.str (b "b")].flatMap Val.toStr ++ (Val.str (b "outer")).toStr = b "abouter" := by decide
   rw [hs, ho] at this
+  exact this
+
+/-! ### from the source bytes: assignments and `@if` blocks -/
+
+/-- **scopes, from the source bytes**: for every template of text runs, `{{ name }}`,
+    `{{ name = "text" }}` and `@if(name) body @end` blocks whose bodies are plain text, prints and
+    assignments (any white space inside the braces and parentheses), and every data map, the render is
+    `(seval env items).1`: a print shows the value visible where it stands — the innermost binding,
+    also one made earlier in the same block or outside it —, an assignment writes the escaped
+    literal into the innermost scope, and an `@if` block evaluates its body in a NEW scope: whatever
+    it assigns, the environment of what follows `@end` is the one before `@if` (`seval_ifb_env`).
+    Lexer (`lex_assign`, `lexRun_abody`, `ifbCode_ok`), parser (`parse_assign_stmt`, the "}}" left
+    over by an assignment is skipped: `parseBlock_aitems`, `loop_stmt_rbraces`; `parse_ifb_stmt`) and
+    evaluator (`evalStmt_assign_str`, `evalBlock_abody`, `evalProg_sitems`) composed. -/
+theorem scoped_template_renders_from_source (custom : List ((VType × Bytes) × Nat)) (items : List SItem) (hok : SItemsOK items)
+    (data : List (Bytes × GoVal)) (env : Env) (henv : envFromMap data = .ok env) (hb : sbound env items)
+    (hsize : sneed items ≤ evalFuel) :
+    evaluateStringPure custom (scopeSrc items) data = .ok (seval env items).1 := by
+  obtain ⟨prog, hp, hm⟩ := parse_sitems items hok
+  unfold evaluateStringPure envOrFail
+  rw [hp]
+  simp only [henv]
+  rw [evalProg_sitems _ prog.stmts items hm env evalFuel [] hb hsize]
+  simp [resToOut]
+
+/-- **an assignment inside a block does not leak**: the template
+    `{{x="a"}}@if(c){{x="b"}}{{x}}@end{{x}}` — for every identifier `x` other than `loop` that the
+    data does not bind to a non-string, and every bound identifier `c` different from `x` — renders `b`
+    (inside the block, when `c` is truthy) and then `a`: after `@end` the enclosing block sees its own
+    value of `x` again, whether the nested block ran or not -/
+theorem nested_assignment_does_not_leak_from_source (custom : List ((VType × Bytes) × Nat)) (x c : Bytes) (hx : isName x) (hc : isName c)
+    (hxl : (x == b "loop") = false) (hxc : (x == c) = false)
+    (data : List (Bytes × GoVal)) (s : List (Bytes × Val)) (o : Env) (henv : envFromMap data = .ok (s :: o))
+    (hty : ∀ old, Env.get (s :: o) x = some old → old.type = .STRING) (cv : Val) (hcv : Env.get (s :: o) c = some cv) :
+    evaluateStringPure custom (scopeSrc [.assign [] x [] [] 34 (b "a") [], .ifb [] c [] [.assign [] x [] [] 34 (b "b") [], .print [] x []], .print [] x []]) data =
+      .ok ((if isTruthy cv then b "b" else []) ++ b "a") := by
+  have hwn : allWs [] := fun _ h => by cases h
+  have hok : SItemsOK [.assign [] x [] [] 34 (b "a") [], .ifb [] c [] [.assign [] x [] [] 34 (b "b") [], .print [] x []], .print [] x []] :=
+    ⟨hwn, hwn, hwn, hwn, hx, Or.inl rfl, by decide, hwn, hwn, hc, ⟨hwn, hwn, hwn, hwn, hx, Or.inl rfl, by decide, hwn, hwn, hx, trivial⟩,
+      hwn, hwn, hx, trivial⟩
+  -- after the first assignment
+  have hgx : Env.get (mapSet s x (.str (literalValue (b "a"))) :: o) x = some (.str (literalValue (b "a"))) := by
+    simp [Env.get, mapGet_set_same]
+  have hgc : Env.get (mapSet s x (.str (literalValue (b "a"))) :: o) c = some cv := by
+    have hne : c ≠ x := by intro e; rw [e] at hxc; simp at hxc
+    simpa [Env.get, mapGet_set_other _ _ _ _ hne] using hcv
+  have hb : sbound (s :: o) [.assign [] x [] [] 34 (b "a") [], .ifb [] c [] [.assign [] x [] [] 34 (b "b") [], .print [] x []], .print [] x []] := by
+    refine ⟨hxl, hty, ?_, ?_, ?_, trivial⟩
+    · show (Env.get (mapSet s x _ :: o) c).isSome = true
+      rw [hgc]; rfl
+    · intro _
+      refine ⟨hxl, ?_, ?_, trivial⟩
+      · intro old ho
+        have : Env.get (Env.push (mapSet s x (.str (literalValue (b "a"))) :: o)) x = some (.str (literalValue (b "a"))) := by
+          rw [env_push_get]; exact hgx
+        rw [show setTop (s :: o) x (.str (literalValue (b "a"))) = mapSet s x (.str (literalValue (b "a"))) :: o from rfl] at ho
+        rw [this] at ho
+        cases ho; rfl
+      · show (Env.get (setTop (Env.push (setTop (s :: o) x _)) x _) x).isSome = true
+        simp [setTop, Env.push, Env.get, mapSet, mapGet]
+    · show (Env.get (mapSet s x _ :: o) x).isSome = true
+      rw [hgx]; rfl
+  have h := scoped_template_renders_from_source custom _ hok data (s :: o) henv hb (by simp [sneed, evalFuel])
+  rw [h]
+  -- the render
+  have hin : Env.get (setTop (Env.push (mapSet s x (.str (literalValue (b "a"))) :: o)) x (.str (literalValue (b "b")))) x =
+      some (.str (literalValue (b "b"))) := by
+    simp [setTop, Env.push, Env.get, mapSet, mapGet]
+  have hst : setTop (s :: o) x (Val.str (literalValue (b "a"))) = mapSet s x (.str (literalValue (b "a"))) :: o := rfl
+  simp only [seval, aeval, hst, truthyOf, hgc, hgx, hin, Option.map_some, Option.getD_some, List.append_nil, Val.toStr]
+  have ea : literalValue (b "a") = b "a" := by decide
+  have eb : literalValue (b "b") = b "b" := by decide
+  rw [ea, eb]
+
+example : evaluateStringPure [] (b "{{x=\"a\"}}@if(c){{x=\"b\"}}{{x}}@end{{x}}") [(b "c", .bool true)] = .ok (b "ba") := by
+  have := nested_assignment_does_not_leak_from_source [] (b "x") (b "c") (by decide) (by decide) (by decide) (by decide)
+    [(b "c", .bool true)] [(b "c", .bool true)] [] (by rfl) (fun old h => by
+      have : Env.get [[(b "c", Val.bool true)]] (b "x") = none := by decide
+      rw [this] at h; cases h) (.bool true) (by rfl)
+  have hs : scopeSrc [.assign [] (b "x") [] [] 34 (b "a") [], .ifb [] (b "c") [] [.assign [] (b "x") [] [] 34 (b "b") [], .print [] (b "x") []], .print [] (b "x") []] =
+      b "{{x=\"a\"}}@if(c){{x=\"b\"}}{{x}}@end{{x}}" := by decide
+  rw [hs] at this
   exact this
 
 end Tw.C04
